@@ -83,6 +83,10 @@ static uint8_t *vp_calloc(uint64_t a, uint64_t b)
    for (uint64_t i = 0; i < n; i++) { p[i] = 0; }
    return p;
 }
+static uint32_t vp_errno_cell;
+static uint32_t *vp_errno_location(void) { return &vp_errno_cell; }
+static uint8_t vp_strerror_text[6] = { 'e', 'r', 'r', 'o', 'r', 0 };
+static uint8_t *vp_strerror(uint32_t e) { (void)e; return vp_strerror_text; }
 static uint32_t vp_cxa_atexit(void *a, uint8_t *b, uint8_t *c) { (void)a; (void)b; (void)c; return 0; }
 static uint32_t vp_atexit(void *a) { (void)a; return 0; }
 static void vp_c_abort(void) { VP_ABORT("abort() called"); }
